@@ -90,6 +90,16 @@ func vDrawProfile(tp *verifsim.Tape, timeoutSec int) transportProfile {
 	return p
 }
 
+// capForHops keeps the worst round trip (every hop delayed both ways) below the timeout: with relays a line
+// crosses relays+1 links each way.
+func (p *transportProfile) capForHops(timeoutSec, relays int) {
+	if timeoutSec > 0 && relays > 0 {
+		if lim := time.Duration(timeoutSec) * time.Second / time.Duration(4*(relays+1)); p.latMax > lim {
+			p.latMax = lim
+		}
+	}
+}
+
 func (p transportProfile) apply(l *verifsim.Link) {
 	l.SegPm, l.CoalescePm, l.LatPm, l.LatMax, l.BytesPerMs = p.segPm, p.coalPm, p.latPm, p.latMax, p.bytesPerMs
 	l.Serial = p.serial
@@ -864,6 +874,11 @@ func (x *xferWorld) report() *xferReport {
 	r.serverExited = x.server.Exited
 	r.serverExit = x.server.ExitCode
 	// the server's final message is printed after the terminal reset sequence
+	// (file content sent in binary mode may itself contain the words looked for: only what follows the last reset
+	// sequence is the server's own message)
+	if i := bytes.LastIndex(down, []byte("\x1b8\x1b[0J")); i >= 0 {
+		down = down[i:]
+	}
 	text := string(vStripVT(down))
 	if i := strings.LastIndex(text, "Saved "); i >= 0 && !strings.Contains(text[i:], "#") {
 		tail := text[i:]
